@@ -80,6 +80,8 @@ def generate(R, tier, focus):
         cfg['list_region'] = R.choice((False, True, True, 'other', 'permuted', 'other_mags'))
         cfg['list_region_perm_seed'] = R.randint(0, 10 ** 6)
     cfg['low_mag_unfiltered'] = False
+    cfg['warm_cats'] = R.random() < 0.3
+    cfg['obs_history'] = R.choice((0, 0, R.randint(1, 10 ** 6)))
     cfg['share_region_object'] = R.random() < 0.5
     if cfg['apply_filters']:
         kinds = [k for k in ('mag', 'time') if R.random() < 0.6]
@@ -408,6 +410,14 @@ class FcWorld:
                 ckw['filters'] = list(cfg['filters'])
             cats = [build.make_catalog(evs, region=creg, catalog_id=i, name='simfc', **ckw)
                     for i, evs in enumerate(scn['cats'])]
+            if cfg.get('warm_cats') and creg is not None:
+                # the catalogs were used before they were handed to the forecast (gridded on their own region)
+                for c_ in cats:
+                    for f_ in (c_.spatial_counts, c_.magnitude_counts, c_.spatial_magnitude_counts, c_.get_spatial_idx):
+                        try:
+                            f_()
+                        except Exception:
+                            pass
             fc = CatalogForecast(catalogs=cats, n_cat=self.J if cfg['n_cat_given'] else None, **kw)
         else:
             if cfg['n_cat_given']:
@@ -420,6 +430,21 @@ class FcWorld:
         return fc
 
     def obs_catalog(self, i, region):
+        if self.cfg.get('obs_history') and self.scn['region']['kind'] == 'cart' and region is not None:
+            # the observed catalog was gridded on another region before (same cells listed in another order), then
+            # re-bound to the forecast's region
+            import random as _random
+            rl = dict(self.scn['region'])
+            rl['origins'] = list(rl['origins'])
+            _random.Random(self.cfg['obs_history']).shuffle(rl['origins'])
+            c = build.make_catalog(self.scn['obs'][i]['events'], region=build.make_region(rl, self.scn['mags']), name='obs%d' % i)
+            for f_ in (c.spatial_counts, c.magnitude_counts, c.spatial_magnitude_counts, c.get_spatial_idx):
+                try:
+                    f_()
+                except Exception:
+                    pass
+            c.region = region
+            return c
         return build.make_catalog(self.scn['obs'][i]['events'], region=region, name='obs%d' % i)
 
 
